@@ -32,11 +32,13 @@ def register(R):
         "_ClientData.push_datagram", params={"datagram": "bytes"}, result="int",
         ensures=[("no-suspension-when-no-task-exists (so the caller can start one atomically)", f"implies(isnone(old({stt})), ghost.suspensions == old(ghost.suspensions) and {Q} == old({Q}) + unit(datagram) and result == len({Q}))", "C16"),
                  ("count-is-positive-when-nothing-interleaved", f"implies(isnone(old({stt})), result >= 1)", "C16"),
+                 ("the-returned-count-is-the-current-queue-length (computed after the last suspension)", f"result == len({Q})", "C16"),
                  ("condition-released", "not self._queue_condition.held", "C16")],
         raises={"BaseException": [("datagram-stays-queued-if-the-notification-is-cancelled", "not self._queue_condition.held", "C16"),
-                                  ("fails-only-while-notifying-an-existing-task", f"not isnone(old({stt}))", "C16")]},
+                                  ("fails-only-while-notifying-an-existing-task", f"not isnone(old({stt}))", "C16"),
+                                  ("A-still-holds-when-the-notification-is-cancelled (the others keep it while this task is suspended)", f"implies(isnone({stt}), len({Q}) == 0)", "C16")]},
         modifies=[Q, stt, "self._queue_condition.held", "ghost.suspensions"],
-        env={**relyQ, "suspends_unless": f"isnone({stt})",
+        env={"rely_havoc": relyQ["rely_havoc"], "rely_inv": relyQ["rely_inv"] + [f"implies(isnone({stt}), len({Q}) == 0)"], "suspends_unless": f"isnone({stt})",
              "atomic_inv": [("A-at-the-suspension-inside-push (a task exists there)", f"implies(isnone({stt}), len({Q}) == 0)", "C16"),
                             ("queued-at-the-tail-before-the-first-suspension",
                                       f"implies(ghost.suspensions == old(ghost.suspensions), {Q} == old({Q}) + unit(datagram))", "C16")]},
@@ -48,13 +50,16 @@ def register(R):
         raises={"IndexError": [("queue-was-empty", f"len(old({Q})) == 0 and {Q} == old({Q})", "C16")]},
         modifies=[Q], tags="C16",
     )
+    keep_running = ("the-running-task-stays-the-running-task", f"implies(old({stt}) == {RUNNING}, {stt} == {RUNNING})", "C16 C17")
     R.contract(
         "_ClientData.pop_datagram", result="bytes",
-        loops={1: {"inv": ["self._queue_condition.held", "queue.items == self._datagram_queue.items"]}},
-        ensures=[("a-datagram-was-taken-from-the-head", "True", "C16"), ("condition-released", "not self._queue_condition.held", "C16")],
-        raises={"BaseException": [("cancelled-wait-takes-nothing-out-of-the-queue-by-itself", "not self._queue_condition.held", "C16")]},
+        loops={1: {"inv": ["self._queue_condition.held", "queue.items == self._datagram_queue.items", f"implies(old({stt}) == {RUNNING}, {stt} == {RUNNING})"]}},
+        ensures=[("a-datagram-was-taken-from-the-head", "True", "C16"), ("condition-released", "not self._queue_condition.held", "C16"), keep_running],
+        raises={"BaseException": [("cancelled-wait-takes-nothing-out-of-the-queue-by-itself", "not self._queue_condition.held", "C16"), keep_running]},
         modifies=[Q, stt, "self._queue_condition.held", "ghost.suspensions"],
-        env={**relyQ, "call_hints": {}},
+        env={"rely_havoc": relyQ["rely_havoc"], "call_hints": {},
+             # nobody but the running task itself leaves the RUNNING state (mark_pending is refused meanwhile)
+             "rely_inv": relyQ["rely_inv"] + [f"implies(pre({stt}) == {RUNNING}, {stt} == {RUNNING})"]},
         tags="C16",
     )
     R.contract("_ClientData.queue_is_empty", result="bool", ensures=[("exact", f"result == (len({Q}) == 0)", "C16")], tags="C16")
@@ -95,16 +100,56 @@ def register_handler(R):
     R.contract("AsyncBackend.create_condition_var", params={"lock": "opt[obj]"}, result="ConditionModel", trusted=True, ensures=["not result.held"])
     R.module("easynetwork/lowlevel/api_async/servers/datagram.py")
     R.inline_fn("_ClientData.__init__", "DatagramClientContext.__init__")
-    R.assume("AsyncDatagramServer.__client_coroutine / __client_coroutine_inner_loop (async-generator plumbing) are not under contract: assumed to "
-             "require state == TASK_PENDING, to run the done-hook on every exit (its contract is proved) and to pop only from the head of the queue")
+    R.module("easynetwork/lowlevel/_asyncgen.py")
+    R.override("anext_without_asyncgen_hook", "stubs.async_backend.anext_model")
+    R.inline_fn("SendAction.asend", "ThrowAction.asend")
+    R.module(ST)
+    R.shape("HandlerGenModel", cls="HandlerGen", fields={"finished": "bool", "closed": "int"})
+    R.shape("NullContextModel", cls="NullContext", fields={})
+    R.external("contextlib.nullcontext", "stubs.async_backend.NullContext")
+    R.ghost(delivered="int", live_gens="int")
+    R.module("easynetwork/lowlevel/api_async/servers/datagram.py")
+    R.inline_fn("_ClientData.backend")
+    R.shape("AsyncDatagramServerP", cls="AsyncDatagramServer", fields={"__protocol": "DatagramProtocol"})
     R.contract(
-        "AsyncDatagramServer.__client_coroutine",
-        params={"datagram_received_cb": "obj", "client_ctx": "obj", "client_data": "_ClientData", "task_group": "TaskGroupModel", "default_context": "ContextModel"},
-        trusted=True,
-        requires=[("a-task-is-pending-for-this-client", f"client_data._ClientData__state == {PENDING}")],
-        ensures=["implies(isnone(client_data._ClientData__state), len(client_data._datagram_queue.items) == 0)"],
-        raises={"BaseException": ["implies(isnone(client_data._ClientData__state), len(client_data._datagram_queue.items) == 0)"]},
-        modifies=["client_data._ClientData__state", "client_data._datagram_queue.items", "ghost.tasks_started", "ghost.suspensions"],
+        "AsyncDatagramServer.__parse_datagram",
+        params={"datagram": "bytes", "protocol": "DatagramProtocol"}, result="union:SendAction|ThrowAction",
+        ensures=[("a-crashing-or-refusing-parser-becomes-an-exception-thrown-INTO-the-handler (never raised in the server)", "True", "C17 C16")],
+        tags="C17 C16",
+    )
+    cqi, csi = "client_data._datagram_queue.items", "client_data._ClientData__state"
+    gen = "request_handler_generator"
+    inner_exit = [("the-running-task-stays-the-running-task", f"{csi} == {RUNNING}", "C16 C17"),
+                  ("generator-accounting", "ghost.live_gens == old(ghost.live_gens) - 1", "C16 C17"),
+                  ("no-handler-generator-left-running", f"{gen}.finished and {gen}.closed <= 1", "C16 C17"),
+                  ("condition-released", "not client_data._queue_condition.held", "C16")]
+    R.contract(
+        "AsyncDatagramServer.__client_coroutine_inner_loop", self_shape="AsyncDatagramServerP",
+        params={"request_handler_generator": "HandlerGenModel", "client_data": "_ClientData"},
+        locals_types={"action": "opt[obj]", "timeout": "opt[xreal]", "datagram": "bytes"},
+        requires=[("called-by-the-running-task", f"{csi} == {RUNNING}"), ("fresh-generator", f"not {gen}.finished and {gen}.closed == 0"),
+                  ("a-datagram-is-waiting (a task is started only for a queued datagram)", f"len({cqi}) >= 1")],
+        loops={1: {"inv": [f"{csi} == {RUNNING}", f"not {gen}.finished", f"{gen}.closed == 0", "not client_data._queue_condition.held", "ghost.live_gens == old(ghost.live_gens)"]}},
+        ensures=inner_exit,
+        raises={"BaseException": inner_exit},
+        modifies=[cqi, csi, "client_data._queue_condition.held", f"{gen}.finished", f"{gen}.closed", "ghost.suspensions", "ghost.delivered", "ghost.live_gens"],
+        env={"rely_havoc": [cqi], "rely_inv": []},
+        tags="C16 C17",
+    )
+    A_after = f"implies(isnone({csi}), len({cqi}) == 0)"
+    restart = f"implies(len({cqi}) > 0, {csi} == {PENDING})"
+    outer_exit = [("no-handler-generator-left-running", "ghost.live_gens == old(ghost.live_gens)", "C16 C17"),
+                  ("A: no task only if nothing is queued", A_after, "C16 C17"),
+                  ("datagrams-that-arrived-meanwhile-get-a-fresh-task (also after the handler failed)", restart, "C16 C17")]
+    R.contract(
+        "AsyncDatagramServer.__client_coroutine", self_shape="AsyncDatagramServerP",
+        params={"datagram_received_cb": "fn:stubs.async_backend:make_handler", "client_ctx": "obj", "client_data": "_ClientData", "task_group": "TaskGroupModel",
+                "default_context": "ContextModel"},
+        requires=[("a-task-is-pending-for-this-client", f"{csi} == {PENDING}"), ("with-a-datagram-waiting", f"len({cqi}) >= 1")],
+        ensures=outer_exit,
+        raises={"BaseException": outer_exit},
+        modifies=[csi, cqi, "client_data._queue_condition.held", "ghost.tasks_started", "ghost.suspensions", "ghost.delivered", "ghost.live_gens"],
+        tags="C16 C17",
     )
     cq, cs = "client_data._datagram_queue.items", "client_data._ClientData__state"
     A = f"implies(bound('client_data') and isnone({cs}), len({cq}) == 0)"
@@ -115,7 +160,7 @@ def register_handler(R):
         requires=[("A holds for the cached client entry", "implies(not client_data_cache.missing and isnone(client_data_cache.entry._ClientData__state), len(client_data_cache.entry._datagram_queue.items) == 0)")],
         ensures=[("A: this client has a task whenever datagrams are queued", A, "C16")],
         raises={"BaseException": [("A: this client has a task whenever datagrams are queued", A, "C16")]},
-        modifies=["client_data_cache.entry", "client_data_cache.missing", "client_ctx_cache.entry", "client_ctx_cache.missing", "ghost.tasks_started", "ghost.suspensions",
+        modifies=["client_data_cache.entry", "client_data_cache.missing", "client_ctx_cache.entry", "client_ctx_cache.missing", "ghost.tasks_started", "ghost.suspensions", "ghost.delivered", "ghost.live_gens",
                   "client_data_cache.entry._ClientData__state", "client_data_cache.entry._datagram_queue.items", "client_data_cache.entry._queue_condition.held"],
         env={"atomic_inv": [("A at every suspension point of the handler (no await between queueing a datagram for an idle client and starting its task)", A, "C16")],
              "rely_havoc": ["?client_data._datagram_queue.items", "?client_data._ClientData__state"],
